@@ -1221,9 +1221,10 @@ def c02_driver_step(K, frozen=()):
 
 # ---------------------------------------------------------------- C02: the constant-parameter 1-D driver assembles the same system as the C kernel contract
 def c02_const_1d(n):
-    """_one_pop_const_params on a grid of n symbolic points (use_delj_trick off), one step (T - initial_t <= dt):
+    """_one_pop_const_params on a grid of n symbolic points, one step (T - initial_t <= dt); _compute_delj by its contract (entry k = delj(M, dx, V) at
+    midpoint k, an uninterpreted function of those three values: with the Chang-Cooper switch off it is 1/2, see c02_compute_delj_py):
     tridiag.tridiag(a, b', c, r) receives entry by entry the a, b + abs + 1/dt, c of the contract of compute_abc_nobc (contracts/c_shared.abc_closed)
-    for V = x(1-x)/nu (beta+1)^2/(4 beta), M = 2 gamma x(1-x)(h+(1-2h)x) at the midpoints, Delta the trapezoid factors, delj = 1/2, and r = (phi + influx)/dt:
+    for V = x(1-x)/nu (beta+1)^2/(4 beta), M = 2 gamma x(1-x)(h+(1-2h)x) at the midpoints, Delta the trapezoid factors, delj as above, and r = (phi + influx)/dt:
     the same linear system as implicit_1Dx (C02 kernel contract), so constant and time-function parameters take the same step."""
     oid = 'C02/Integration.py:_one_pop_const_params/system.n%d' % n
     fn = 'dadi/Integration.py::_one_pop_const_params'
@@ -1233,22 +1234,28 @@ def c02_const_1d(n):
         from contracts import c_shared as CS
         T, t0 = z3.Reals('T t0')
         nu, g, h, th, beta = z3.Reals('nu gamma h theta0 beta')
-        xs = reals('x', n)
+        xs = [z3.RealVal(0)] + reals('x', n - 2) + [z3.RealVal(1)]      # dadi grids run from 0 to 1: M vanishes at both ends, one path
         ph = reals('phi', n)
-        hy = [T > t0, nu > 0, beta > 0, th >= 0, xs[0] >= 0] + [xs[i] < xs[i + 1] for i in range(n - 1)]
+        hy = [T > t0, nu > 0, beta > 0, th >= 0] + [xs[i] < xs[i + 1] for i in range(n - 1)]
+        delj = uf('delj', 3)
 
         def policy(fr):
             if fr.qualname == '_compute_dt':
                 def cdt(ex_, f_, a, k_):
                     d = ex_.ctx.fresh('dt')
-                    ex_.ctx.pc += [d >= T - t0, d > 0]
+                    ex_.ctx.pc += [d > T - t0, d > 0]        # strictly longer than the epoch: min(dt, T - t) is then decided (at equality both are the same number)
                     return d
                 return cdt
-            if fr.qualname in ('_Mfunc1D', '_Vfunc', '_compute_dfactor', '_compute_delj', '_inject_mutations_1D', '_one_pop_const_params'):
+            if fr.qualname == '_compute_delj':
+                # by contract (proved separately, c02_compute_delj_py): entry k = delj(M_k, dx_k, V_k), read along the swept axis
+                def cdj(ex_, f_, a, k_):
+                    dl, ml, vl = ex_.iterate(a[0]), ex_.iterate(a[1]), ex_.iterate(a[2])
+                    return VList([delj(to_real(exact(ml[k])), to_real(exact(dl[k])), to_real(exact(vl[k]))) for k in range(len(ml))], 'ndarray')
+                return cdj
+            if fr.qualname in ('_Mfunc1D', '_Vfunc', '_compute_dfactor', '_inject_mutations_1D', '_one_pop_const_params'):
                 return 'inline'
             return 'abstract'
         ex = Executor(policy=policy, max_paths=64)
-        ex.module_overrides[('dadi.Integration', 'use_delj_trick')] = False
         ex.module_overrides[('dadi.Integration', 'cuda_enabled')] = False
         f = ex.func('dadi/Integration.py', '_one_pop_const_params')
         paths = ex.explore(lambda e: e.apply(f.node, None, f.mod, [VList(ph, 'ndarray'), VList(xs, 'ndarray'), T], dict(nu=nu, gamma=g, h=h, theta0=th, initial_t=t0, beta=beta), 'f'), base_pc=hy)
@@ -1263,8 +1270,9 @@ def c02_const_1d(n):
         dx = lambda k: xs[k + 1] - xs[k]
         xi = lambda k: (xs[k + 1] + xs[k]) / 2
         Delta = lambda k: 2 / dx(0) if k == 0 else (2 / dx(N - 2) if k == N - 1 else 2 / (dx(k) + dx(k - 1)))
-        at = lambda k: Mf(xi(k)) * CS.HALF + V(xs[k]) / (2 * dx(k))
-        ct = lambda k: -Mf(xi(k)) * (1 - CS.HALF) + V(xs[k + 1]) / (2 * dx(k))
+        dj = lambda k: delj(Mf(xi(k)), dx(k), V(xi(k)))
+        at = lambda k: Mf(xi(k)) * dj(k) + V(xs[k]) / (2 * dx(k))
+        ct = lambda k: -Mf(xi(k)) * (1 - dj(k)) + V(xs[k + 1]) / (2 * dx(k))
         sa = lambda k: z3.RealVal(0) if k == 0 else -Delta(k) * at(k - 1)
         sc = lambda k: z3.RealVal(0) if k == N - 1 else -Delta(k) * ct(k)
         sb0 = lambda k: (Delta(k) * at(k) if k <= N - 2 else 0) + (Delta(k) * ct(k - 1) if k >= 1 else 0)
@@ -1289,11 +1297,11 @@ def c02_const_1d(n):
                     absk = absk + z3.If(Mn >= 0, (CS.HALF / nu + Mn) * 2 / dx(n - 2), z3.RealVal(0))
                 from contracts.c_verify import _resolve
                 hyp = p.pc
-                out.append(prove_eq('%s.a[%d]' % (o, k), hyp, a.items[k], sa(k), func=fn, timeout_ms=30000, finding_key='C02/const1d/a'))
-                out.append(prove_eq('%s.c[%d]' % (o, k), hyp, c.items[k], sc(k), func=fn, timeout_ms=30000, finding_key='C02/const1d/c'))
-                out.append(prove_eq('%s.b[%d]' % (o, k), hyp, to_real(b.items[k]), _resolve(1 / dt + sb0(k) + absk, hyp), func=fn, timeout_ms=30000, finding_key='C02/const1d/b'))
+                out.append(prove_eq('%s.a[%d]' % (o, k), hyp, a.items[k], sa(k), func=fn, timeout_ms=30000, finding_key='C02/const1d/a', z3_first_ms=250))
+                out.append(prove_eq('%s.c[%d]' % (o, k), hyp, c.items[k], sc(k), func=fn, timeout_ms=30000, finding_key='C02/const1d/c', z3_first_ms=250))
+                out.append(prove_eq('%s.b[%d]' % (o, k), hyp, _resolve(to_real(b.items[k]), hyp), _resolve(1 / dt + sb0(k) + absk, hyp), func=fn, timeout_ms=30000, finding_key='C02/const1d/b', z3_first_ms=250))
                 infl = dt * th / 2 / xs[1] * 2 / (xs[2] - xs[0]) if k == 1 else 0
-                out.append(prove_eq('%s.r[%d]' % (o, k), hyp, r.items[k], (ph[k] + infl) / dt, func=fn, timeout_ms=30000, finding_key='C02/const1d/r'))
+                out.append(prove_eq('%s.r[%d]' % (o, k), hyp, _resolve(to_real(exact(r.items[k])), hyp), (ph[k] + infl) / dt, func=fn, timeout_ms=30000, finding_key='C02/const1d/r', z3_first_ms=250))
             out.append(struct(o + '.returns-solution', p.value is calls[0], 'returns the solver result', fn))
         out.append(struct(oid + '.paths', len(rets) >= 1, '%d returning paths (boundary-term branches)' % len(rets), fn))
         return out
